@@ -375,6 +375,31 @@ CHECKS["C04"] = dict(
          "Raw text, lang, comments, PIs and DTDs are not modelled; re.sub/str.replace semantics are trusted.",
 )
 
+CHECKS["C13"] = dict(
+    text=("Machine-checked theorems (Coq): a generic shared-memory step semantics (threads with private state, shared "
+          "cells, schedules = lists of thread indexes, footprints, value-idempotent memo cells) with "
+          "drf_noninterference — for ANY number of threads and ANY schedule, if each thread keeps to its footprint "
+          "and what one thread writes and another reads is at most an idempotent memo cell, every thread completes "
+          "with exactly its solo result (induction on the schedule); instantiated with the statement-level program "
+          "of one suds invocation (options read, memo lookups, message slots, transport proxy, send, "
+          "MultiRef.process per call, body.children) whose footprint is computed from the program text "
+          "(call_footprint_sound, calls_noninterference); the pre-fix shared MultiRef program is refuted by a "
+          "schedule in which A returns B's reply; clones are independent and can always be made (Endpoint guard). "
+          "The tie: the WRITE FOOTPRINT OF REAL CALLS IS MEASURED (snapshot/diff of ~2100 objects reachable from "
+          "the client plus all suds module and class dictionaries, intermediate snapshots under sys.settrace) and "
+          "must lie inside the model's declared footprint and meet the theorem's condition; a deterministic "
+          "scheduler (threads gated on trace events) runs ~1100 single-preemption interleavings at call/return "
+          "events and random <=3-preemption schedules among 2-4 threads over document, rpc and encoded/multiref "
+          "calls on one client, clones and clones of clones, comparing each thread's request and result with its "
+          "solo run (41k interleavings thorough). PARTIAL: GIL, C-level atomicity of dict/list operations and the "
+          "thread safety of the standard library are assumed."),
+    design="DESIGN.md §5 C13",
+    technique="Coq proof (data-race-freedom non-interference for all schedules) + measured footprints + "
+              "deterministic-scheduler correspondence",
+    note="Marshalling/unmarshalling content is compared with solo runs only; the model schedule is mapped from the "
+         "real one coarsely (per-mille progress); exhaustive single-preemption covers 8 ordered scenario pairs.",
+)
+
 PENDING = {}
 
 
